@@ -21,6 +21,8 @@ STRUCTS = {
     'w6': ('pub struct Wr<T, U: ?Sized>(pub core::marker::PhantomData<T>, pub core::marker::PhantomData<U>);', None, 'Wr<{T0}, {T1}>'),
     # the dispatched parameter itself may be unsized
     'w7': ('pub struct Wr<T: ?Sized>(pub core::marker::PhantomData<Box<T>>);', None, 'Wr<{T0}>'),
+    # two lifetime parameters, declared by the blocks in any order; an item mentions the second one
+    'w8': ("pub struct Wr<'a, 'b, T>(pub core::marker::PhantomData<(&'a T, &'b T)>);", None, "Wr<{L0}, {L1}, {T0}>"),
 }
 
 
@@ -41,7 +43,7 @@ def gen(rng, idx=None, structs=None):
     for fi, cval in enumerate(consts):
         groups = rng.sample(gp.GROUPS, ngroups)
         for g in groups:
-            used = [s for s in ['L0', 'T0', 'T1'] if '{%s}' % s in self_tmpl]
+            used = [s for s in ['L0', 'L1', 'T0', 'T1'] if '{%s}' % s in self_tmpl]
             slots = gp.mk_slots(rng, used)
             if generic_const:
                 slots['N0'] = ('const', rng.choice(['N', 'M', 'LEN']))
@@ -52,6 +54,8 @@ def gen(rng, idx=None, structs=None):
             if 'T1' in slots and rng.random() < 0.5:
                 bounds.append(('{T1}', 'D', {}, rng.choice(['inline', 'where'])))
             b = gp.Block({x: slots[x] for x in order}, None, self_fmt, bounds, 'b%d' % len(blocks))
+            if sk == 'w8':
+                b.of_lifetime = '{L1} '
             if sk == 'w6':
                 b.bounds = [bd for bd in b.bounds if bd[0] != '{T1}']
             blocks.append(b)
@@ -107,7 +111,7 @@ def gen(rng, idx=None, structs=None):
     for cv in cvals:
         for a in atoms:
             for b2 in (atoms[:2] if '{T1}' in self_tmpl else ['']):
-                probes.append(self_tmpl.replace('{C}', cv).format(L0="'static", T0=a, T1=b2))
+                probes.append(self_tmpl.replace('{C}', cv).format(L0="'static", L1="'static", T0=a, T1=b2))
     rng.shuffle(probes)
     c.probes = probes[:8]
     if sk == 'w6':
@@ -152,8 +156,8 @@ def first_type_arg(self_ty):
 
 def block_text(b):
     # `of` mentions a type parameter of the block in its signature (parameter order matters)
-    return 'impl%s %s%s {\n    pub const NAME: &\'static str = "%s";\n    const SECRET: u8 = %d;\n    pub fn f() -> &\'static str { "%s" }\n    pub fn of(_x: Option<&%s>) -> u8 { %d }\n}\n' % (
-        b.generics(), b.fmt(b.self_ty), b.where(), b.tag, int(b.tag[1:]) + 1, b.tag, b.fmt(first_type_arg(b.self_ty)), int(b.tag[1:]) + 1)
+    return 'impl%s %s%s {\n    pub const NAME: &\'static str = "%s";\n    const SECRET: u8 = %d;\n    pub fn f() -> &\'static str { "%s" }\n    pub fn of(_x: Option<&%s%s>) -> u8 { %d }\n}\n' % (
+        b.generics(), b.fmt(b.self_ty), b.where(), b.tag, int(b.tag[1:]) + 1, b.tag, b.fmt(getattr(b, 'of_lifetime', '')), b.fmt(first_type_arg(b.self_ty)), int(b.tag[1:]) + 1)
 
 
 def invocation(c, order=None):
